@@ -389,7 +389,16 @@ func init() {
 	// harness vocabulary for the storage model
 	rt := "github.com/spikeekips/mitum/util/verifrt."
 	externals[rt+"StorageCrashAfter"] = func(m *Machine, fr *Frame, a []Value) Value {
-		m.userData["ldb.crashAt"] = int(m.concInt(a[0], "crash point"))
+		n := int(m.concInt(a[0], "crash point"))
+		m.userData["ldb.crashAt"] = n
+		if n < 0 {
+			// "restart": storages that died accept writes again (what was dropped stays dropped)
+			for _, s := range m.syncObjs {
+				if d, ok := s.(*ldbModel); ok {
+					d.crashAt = -1
+				}
+			}
+		}
 		return nil
 	}
 	externals[rt+"StorageWrites"] = func(m *Machine, fr *Frame, a []Value) Value {
